@@ -6,7 +6,7 @@
 (* finite list Configs of the scenario and never changes within a          *)
 (* behaviour (Session.tla adds the editing actions).                       *)
 (***************************************************************************)
-EXTENDS Collate
+EXTENDS Collate, Derived
 
 CONSTANT Configs      \* sequence of [rows |-> dc, cols |-> dc] records
 
